@@ -33,13 +33,7 @@ open Mltwist.Spec.Overlay (AbsMem)
 
 /-! ### the emulator object -/
 
-/-- `*emulator.Emulator`: the code it was created on and its state -/
-structure ESt where
-  code : Emulator.CodeView
-  st : State.State
-
-/-- a Go string (bytes) as a key of the state maps -/
-def strOf (s : Str) : String := String.ofList (s.map fun c => Char.ofNat c.toNat)
+-- `ESt` (the emulator object), `strOf`: `Model/Compose.lean`
 
 /-! ### the register map is a map -/
 
@@ -133,63 +127,11 @@ theorem extra_finish {ins : Emulator.Ins} {j : Bool} {s : State.State} (hx : Ext
 
 /-! ### the console as state provider -/
 
-/-- the values typed in so far, per request -/
-abbrev Answers := List (Req × List UInt8)
+-- `Answers`, `provOf`, `reqWidth`, `firstOpen`, `stepTree`, `stepFuel`, `regsOf`, `startState`, `emuOps`:
+-- `Model/Compose.lean`
 
-/-- the `StateProvider` after the answers `ans`: a request that was answered returns its answer -/
-def provOf (ans : Answers) : Provider where
-  reg k w := ((ans.find? fun p => p.1 == Req.reg k w).map (·.2)).getD []
-  mem k a w := ((ans.find? fun p => p.1 == Req.mem k a w).map (·.2)).getD []
-
-/-- the width the prompt asks for -/
-def reqWidth : Req → Nat
-  | .reg _ w => w
-  | .mem _ _ w => w
-
-/-- the first request of the log of a replay that has no answer yet -/
-def firstOpen (ans : Answers) (log : List Req) : Option Req := log.find? fun r => !(ans.any fun p => p.1 == r)
-
-/-- `Emulator.Step()` with the console as state provider.  The step is replayed with the answers typed so far
-(`fuel` bounds the number of prompts of one step); the first request of its log that has no answer yet is the
-next prompt (`expr.Width` is `uint8`).  A step that ends in the access error (REPAIR F45) has asked the provider
-as well: its open requests are prompts, then `Step` returns the error and the emulator keeps the answers. -/
-def stepTree (e : ESt) : Nat → Answers → StepTree ESt
-  | 0, _ => .fail e
-  | fuel + 1, ans =>
-    match Emulator.step (provOf ans) e.code e.st with
-    | .panic _ => .panic
-    | .err => .fail e
-    | .ok s' _ log =>
-      match firstOpen ans log with
-      | none => .done ⟨e.code, s'⟩
-      | some r => .ask (reqWidth r % 256) fun c => stepTree e fuel (ans ++ [(r, c)])
-    | .accessErr s' log _ _ =>
-      match firstOpen ans log with
-      | none => .fail ⟨e.code, s'⟩
-      | some r => .ask (reqWidth r % 256) fun c => stepTree e fuel (ans ++ [(r, c)])
-
-/-- prompts of one step: far beyond what an instruction can ask for -/
-def stepFuel : Nat := 4096
-
-/-- the register file as the register view sees it: sorted by key (`regKeys`) -/
-def regsOf (m : RegMap) : List Render.Reg :=
-  (m.map fun p => (⟨p.1, p.2.width⟩ : Render.Reg)).mergeSort fun a b => !decide (b.key < a.key)
-
-/-- THE EMULATOR of the console UI over the real emulator model: `bs` the byte memory of the program
-(`memory.NewBytes`), `cv` the code view of the dependency model at the time `emulate` is executed -/
-def emuOps (bs : List BytesMem.Block) (cv : Emulator.CodeView) : EmuOps ESt where
-  init _ ip := ⟨cv, Emulator.new ip (toolState [] bs)⟩
-  ip e := match mustIP e.st with
-    | .ok a => some a
-    | .error _ => none
-  step e := stepTree e stepFuel []
-  regWidth e k := (assocGet (strOf k) e.st.regs).map fun x => x.width % 256
-  regStore e k c :=
-    match assocGet (strOf k) e.st.regs with
-    | some x => { e with st := { e.st with regs := e.st.regs.store (strOf k) (.const c) (x.width % 256) } }
-    | none => e
-  mem e k := (assocGet (strOf k) e.st.mems).map ofMem
-  regs e := regsOf e.st.regs
+/-- the start state of `emulF` is C04's `toolState` without pre-set registers -/
+theorem startState_eq (bs : List BytesMem.Block) : startState bs = toolState [] bs := rfl
 
 /-! ### the good states -/
 
